@@ -52,6 +52,28 @@ def library_identifiers():
     return out
 
 
+def captured_library_names(text):
+    """(definition, name) pairs of an emitted file: the package defines `name`, a Gallina identifier the translator itself emits, and
+    a definition BELOW it mentions `name` — in Coq's reading order that mention is the package's function, whatever was meant."""
+    reps = k4.gl_session(text, ["names"])
+    if reps[0].startswith("parse-error"):
+        return []
+    order = reps[1][6:].split(",") if reps[1] != "names -" else []
+    lib = library_identifiers()
+    mine = [n for n in order if n in lib]
+    if not mine:
+        return []
+    uses = k4.gl_session(text, ["usesord " + n for n in order])[1:]
+    pos = {}
+    for i, n in enumerate(order):
+        pos.setdefault(n, i)
+    out = []
+    for i, (n, rep) in enumerate(zip(order, uses)):
+        ms = rep[8:].split(",") if rep.startswith("usesord ") and rep != "usesord -" else []
+        out += [(n, u) for u in ms if u in mine and pos[u] < i]
+    return out
+
+
 def recording_gaps(h, text=None):
     """For one package as the hook reports it: (definition, mentioned same-package definition) pairs where the mention is not among
     the dependencies recorded for the unit that emitted the definition."""
@@ -415,6 +437,15 @@ def check(ctx, build=None):
                 gold = glob.glob(os.path.join(exdir, "*.gold.v"))
                 gaps = recording_gaps(hh, open(gold[0]).read() if gold else None)
                 stats["example_packages_checked"] += 1
+                if gold:
+                    cap = captured_library_names(open(gold[0]).read())
+                    kcap = next((e for e in C.load_known("C04") if e.get("status") == "known" and e.get("key") == "library-identifier-captured"), None)
+                    listed = set((kcap or {}).get("match", {}).get("names", []))
+                    if cap and {u for _, u in cap} <= listed:
+                        ctx.known("%s — %s (this run: internal/examples/%s: %s mentions %s)" % (kcap["key"], kcap["what"], ex, cap[0][0], cap[0][1]))
+                    elif cap:
+                        viol("C04: a function of the package is named like a Gallina identifier the translator emits, and a definition below it uses that identifier",
+                             {"proto": "c04-examples", "package": "internal/examples/" + ex}, "no definition captures an identifier of GooseLang's library", {"definition_uses": cap[:6]})
                 if gaps is None:
                     continue
                 stats["example_definitions_checked"] += len(hh.get("emitted") or [])
